@@ -305,7 +305,7 @@ def c09_4(ctx: Ctx):
         raise AnalysisError(f"only {n} adjacent_blocks call sites found in _modify")
 
 
-@rule("C09.5", ["C09", "C03", "C11"], "the initial block ordering puts a zero-sized block before the non-empty block at the same address", 4)
+@rule("C09.5", ["C09", "C03", "C11", "C02", "C06"], "the initial block ordering puts a zero-sized block before the non-empty block at the same address", 4)
 def c09_5(ctx: Ctx):
     fi = ctx.repo.func("_modify.cache.ModifyCache.__init__")
     sorts = [c for c in calls_in(fi.node) if isinstance(c.func, ast.Name) and c.func.id == "sorted"]
